@@ -11,7 +11,7 @@ independent RFC 1071 checksum evaluated over raw offsets).
 
 Oracle clauses (violation key = C14:<clause>:<site or field>):
   raises:<file>:<function>:<exception>   build / pack / parse / re-pack raised (innermost POX frame)
-  chain:<outer>><kind>:<found>           the parser did not give back the header that was packed
+  chain:<kind>                           the parser did not give back the <kind> header that was packed
   field:<kind>.<attr>                    a header field differs after the round trip
   payload:<kind>                         the innermost payload differs after the round trip
   repack:<kind>@<offset>                 pack(parse(b)) != b, first differing byte located in <kind>
@@ -26,6 +26,7 @@ from mc.refs import pktcorpus as K
 
 PID = "C14"
 MISSING = "<missing>"
+LABELLED = frozenset(["options", "tlvs", "questions", "answers", "authorities", "additional", "entries", "group_records"])
 SKIP_ATTRS = frozenset(["prev", "next", "parsed", "hdr_len", "payload_len", "rdlen", "dirty", "callback"])
 
 
@@ -74,6 +75,27 @@ def canon (v, depth=0):
       items.append((k, canon(d[k], depth + 1)))
     return (name, tuple(items))
   return repr(v)
+
+
+def elem_label (a, z):
+  """For list / dict valued fields: name the first element that differs (class and type code of the
+  element that was packed), so that different broken options / TLVs get different keys."""
+  if not (isinstance(a, tuple) and isinstance(z, tuple)) or (a and isinstance(a[0], str)):
+    return ""
+  n = 0
+  while n < len(a) and n < len(z) and a[n] == z[n]: n += 1
+  if n >= len(a): return "[extra]"
+  e = a[n]
+  if isinstance(e, tuple) and len(e) == 2 and not isinstance(e[0], str) and isinstance(e[1], tuple):
+    e = e[1]                                   # dict item (key, value): label the value
+  if isinstance(e, tuple) and len(e) == 2 and isinstance(e[0], str) and isinstance(e[1], tuple):
+    name, items = e
+    d = dict(x for x in items if isinstance(x, tuple) and len(x) == 2)
+    for t in ("type", "tlv_type", "TYPE", "subtype", "qtype"):
+      if isinstance(d.get(t), int) and name in ("tcp_opt", "unknown_tlv", "NDOptionGeneric", "rr"):
+        return "[%s-%s]" % (name, d[t])
+    return "[%s]" % name
+  return "[%d]" % n if n < 4 else "[n]"
 
 
 def describe (x, P):
@@ -134,15 +156,19 @@ def check_case (P, st, devs, plen):
   except Exception as e:
     _raised(c, e, "parsing the library's own bytes")
   if p is not None:
+    # Round-trip clauses are evaluated in order chain -> fields -> payload -> re-pack and only the first
+    # failing clause of a case is reported: the later ones are consequences of it (a field that came
+    # back wrong makes the re-packed bytes differ, ...).  Base vectors have no deviation, so a defect
+    # of a later clause still shows in the cases where the earlier clauses hold.
     cur = p
-    ok = True
+    failed = False
     names = []
     for i, k in enumerate(kinds):
       cls = K.KINDS[k]["cls"](P)
       if not isinstance(cur, cls) or not getattr(cur, "parsed", False):
-        c.bad("chain:%s>%s:%s" % (kinds[i - 1] if i else "frame", k, describe(cur, P)),
-              "packed a %s header inside %s but parsing gave back %s" % (k, kinds[i - 1] if i else "the frame", describe(cur, P)))
-        ok = False
+        c.bad("chain:%s" % k, "packed a %s header inside %s but parsing gave back %s"
+              % (k, kinds[i - 1] if i else "the frame", describe(cur, P)))
+        failed = True
         break
       names.append(type(cur).__name__)
       for f in K.KINDS[k]["cmp"]:
@@ -151,10 +177,13 @@ def check_case (P, st, devs, plen):
         if isinstance(a, bool) and not isinstance(z, str): z = bool(z)
         ca, cz = canon(a), canon(z)
         if ca != cz:
-          c.bad("field:%s.%s" % (k, f), "%s.%s was %s when packed, %s after parsing" % (k, f, short(ca), short(cz)))
+          c.bad("field:%s.%s%s" % (k, f, elem_label(ca, cz) if f in LABELLED else ""),
+                "%s.%s was %s when packed, %s after parsing" % (k, f, short(ca, 90), short(cz, 90)))
+          failed = True
+      if failed: break
       cur = cur.next
     c.chain = "/".join(names)
-    if ok:
+    if not failed:
       try:
         if cur is None: rest = b""
         elif isinstance(cur, bytes): rest = cur
@@ -164,16 +193,18 @@ def check_case (P, st, devs, plen):
         if rest != (payload or b""):
           c.bad("payload:%s" % kinds[-1], "payload of %d bytes came back as %s (%d bytes)"
                 % (len(payload or b""), describe(cur, P), len(rest)))
+          failed = True
       except Exception as e:
         _raised(c, e, "packing the parsed payload")
+        failed = True
     # ---- serialise the parsed result again ---------------------------------------------------
     try:
       c.calls += 1
       b2 = p.pack()
     except Exception as e:
-      _raised(c, e, "re-serialising the parsed packet")
+      if not failed: _raised(c, e, "re-serialising the parsed packet")
     else:
-      if b2 != b:
+      if b2 != b and not failed:
         c.bad("repack:" + locate_diff(P, objs, kinds, payload, b, b2),
               "pack(parse(b)) differs from b (%d vs %d bytes, first difference at offset %d)"
               % (len(b2), len(b), first_diff(b, b2)))
@@ -235,36 +266,68 @@ def locate_diff (P, objs, kinds, payload, b, b2):
 # enumeration
 # ---------------------------------------------------------------------------------------------
 
-def cases_for (st, quick):
-  """Deterministic list of (devs, plen) for one stack."""
-  out = []
+def plan (st, quick):
+  """Payload-length sets of a stack for the tier: (base, 1 deviation, 2 deviations, 3 deviations)."""
   plens = st["plens"]
-  for n in plens:
-    out.append(((), n))
+  full = len(plens) >= 1501
+  if not quick and plens and plens[-1] == 1500:
+    plens = K.FULL
+  dp = [n for n in (0, 1, 18) if n in plens] or list(plens[:2])
+  if quick:
+    dp1 = dp + ([1499, 1500] if full else [])
+  else:
+    dp1 = list(plens) if full else sorted(set(dp) | set(st["plens"]))
+  dp2 = dp[:2] if quick else dp[:3]
+  dp3 = [] if quick else dp[:2]
+  return plens, dp1, dp2, dp3
+
+
+def cases_for (st, quick, part):
+  """Deterministic list of (devs, plen) of one stack.  part -1: the base vector x the stack's payload
+  range; part i >= 0: every case whose FIRST deviation is deviation number i of the stack -
+     quick:    1 deviation x {0,1,18}(+1499,1500 on full-range stacks); 2 deviations x {0,1}
+     thorough: base x 0..1500 wherever the stack range reaches 1500; 1 deviation x the whole stack range;
+               2 deviations x {0,1,18}; 3 deviations x {0,1} on stacks with <= 100 single deviations"""
+  plens, dp1, dp2, dp3 = plan(st, quick)
+  if part < 0:
+    return [((), n) for n in plens]
   devs = K.deviations(st)
-  dp = [n for n in (0, 1, 18) if n in plens] or plens[:2]
-  if len(plens) >= 1501: dp = dp + [1499, 1500]
-  for d in devs:
-    for n in dp:
-      out.append(((d,), n))
-  # two deviations (different fields)
-  dp2 = dp[:1] if quick else dp[:3]
-  for i in range(len(devs)):
-    for j in range(i + 1, len(devs)):
-      if devs[i][:2] == devs[j][:2]: continue
-      for n in dp2:
-        out.append(((devs[i], devs[j]), n))
+  nd = len(devs)
+  i = part
+  out = [((devs[i],), n) for n in dp1]
+  for j in range(i + 1, nd):
+    if devs[i][:2] == devs[j][:2]: continue
+    for n in dp2:
+      out.append(((devs[i], devs[j]), n))
+    if dp3 and nd <= 100:
+      for k in range(j + 1, nd):
+        if devs[k][:2] == devs[j][:2] or devs[k][:2] == devs[i][:2]: continue
+        for n in dp3:
+          out.append(((devs[i], devs[j], devs[k]), n))
   return out
 
 
-CHUNK = 600
+def estimate (st, quick, part):
+  plens, dp1, dp2, dp3 = plan(st, quick)
+  if part < 0: return len(plens)
+  nd = len(K.deviations(st))
+  m = nd - part - 1
+  n = len(dp1) + m * len(dp2)
+  if dp3 and nd <= 100: n += (m * (m - 1) // 2) * len(dp3)
+  return n
 
-def _worker (item):
-  name, part, nparts = item
+
+def _worker (batch):
+  rep = Report(PID, "exploration")
+  for name, part in batch:
+    _run_part(rep, name, part)
+  return rep
+
+
+def _run_part (rep, name, part):
   P = K.pox_namespace()
   st = K.STACKS[name]
-  rep = Report(PID, "exploration")
-  cases = cases_for(st, _worker.quick)[part::nparts]
+  cases = cases_for(st, _worker.quick, part)
   for devs, plen in cases:
     try:
       c = check_case(P, st, devs, plen)
@@ -281,9 +344,8 @@ def _worker (item):
       seen.add(k)
       rep.violation("%s:%s" % (PID, k), "[%s] %s" % (name, what),
                     dict(kind="packet", stack=name, devs=[list(d) for d in devs], plen=plen))
-    if not c.viols and not devs and plen in (1, 18) and len(rep.samples) < 1:
+    if not c.viols and not devs and plen == 18:
       rep.sample(dict(stack=name, plen=plen, chain=c.chain, frame=c.frame[:96]))
-  return rep
 _worker.quick = True
 
 
@@ -358,11 +420,18 @@ def run (cfg):
     names = [n for n in names if cfg.only in n]
   items = []
   total = 0
+  parts = []
   for name in names:
-    n = len(cases_for(K.STACKS[name], quick))
-    total += n
-    parts = max(1, (n + CHUNK - 1) // CHUNK)
-    items.extend((name, i, parts) for i in range(parts))
+    nd1 = len(K.deviations(K.STACKS[name]))
+    parts.extend(((name, i), estimate(K.STACKS[name], quick, i)) for i in range(-1, nd1))
+  total = sum(n for _, n in parts)
+  target = max(1500, total // (max(1, cfg.workers) * 12))
+  cur, size = [], 0
+  for it, n in parts:                      # deterministic greedy batching of the (stack, first deviation) parts
+    cur.append(it); size += n
+    if size >= target:
+      items.append(cur); cur, size = [], 0
+  if cur: items.append(cur)
   for r in pmap(_worker, items, cfg.workers, seed=cfg.seed):
     rep.merge(r)
   if not cfg.only or cfg.only == "csum":
@@ -374,13 +443,17 @@ def run (cfg):
   nd = sum(len(K.deviations(K.STACKS[n])) for n in names)
   rep.rule = ("E-enum over mc/refs/pktcorpus.STACKS: %d header stacks (each L3 stack also behind an 802.1Q tag); per stack the "
               "fingerprint base vector x every payload length of the stack's range (0..1500 for udp, tcp, icmp-echo over IPv4; "
-              "{0,1,2,3,17,18,1499,1500} otherwise), every single deviation of a field to one of its boundary values / option-list "
-              "shapes (%d deviations) x payload {0,1,18}, every pair of deviations in different fields x payload %s; plus "
+              "{0,1,2,3,17,18,1499,1500} otherwise%s), every single deviation of a field to one of its boundary values / option-list "
+              "shapes (%d deviations) x payload %s, every pair of deviations in different fields x payload %s%s; plus "
               "packet_utils.checksum on bare buffers of every length 0..%d x 5 byte patterns x skip_word {None,0,1,last}. "
               "Each case: assemble with the POX classes, pack, parse, compare chain/fields/payload, re-pack, verify length and "
               "checksum fields with refs/rfc1071 over raw offsets. distinct = distinct (violated clauses, emitted frame, parsed chain)"
-              % (len(names), nd, "{0}" if quick else "{0,1,18}", 129 if quick else 1501))
-  rep.bound = dict(stacks=len(names), deviations=2, payload_max=1500, cases=total)
+              % (len(names), "" if quick else "; thorough: 0..1500 on every stack whose range reaches 1500", nd,
+                 "{0,1,18} (+1499,1500 on the 0..1500 stacks)" if quick else "the stack's whole range",
+                 "{0,1}" if quick else "{0,1,18}",
+                 "" if quick else ", every triple of deviations in different fields x payload {0,1} on stacks with <= 100 deviations",
+                 129 if quick else 1501))
+  rep.bound = dict(stacks=len(names), deviations=2 if quick else 3, payload_max=1500, work_items=len(items))
   rep.assumptions = ["frames carry no trailer padding (a total-length field accounts for every remaining byte)",
                      "field values are taken from the boundary sets in pktcorpus.KINDS, not from the whole wire range",
                      "ICMPv6, IGMP and GRE checksums are not named by the property: checked by round trip only",
